@@ -82,7 +82,8 @@ pub fn char_index_to_position(content: &str, char_index: usize) -> Position {
         }
     }
 
-    let character = char_index - last_line_start;
+    // LSP columns count UTF-16 code units, not bytes
+    let character = content[last_line_start..char_index].encode_utf16().count();
 
     Position {
         line: line as u32,
